@@ -113,7 +113,7 @@ def _ctx_calls(rng, schemes, n, allow_hash=True, cats=(None,)):
 
 
 def generate(rng, prop, tier):
-    t = rng.choices(["T1", "T2", "T3", "T4", "T5", "T6", "T7", "T8"], [22, 12, 22, 14, 8, 8, 4, 10])[0]
+    t = rng.choices(["T1", "T2", "T3", "T4", "T5", "T6", "T7", "T8", "T9", "T10"], [22, 12, 22, 14, 8, 8, 4, 10, 3, 3])[0]
     nthreads = rng.choice([2, 2, 2, 3])
     params = {}
     threads = []
@@ -172,6 +172,19 @@ def generate(rng, prop, tier):
                                         ["pbkdf2_hmac", rng.choice(["sha256", "sha1", "sha512", "md5"])],
                                         ["compile_hmac", rng.choice(["sha1", "sha256", "md5"])],
                                         ["norm_hash_name", rng.choice(["sha-256", "SHA1", "md5"])]])
+                            for _ in range(rng.randint(1, 3))])
+    elif t == "T9":
+        # password generators: word sets are loaded from disk and memoised on first use
+        for _ in range(nthreads):
+            threads.append([rng.choice([["genphrase", rng.choice(["eff_long", "eff_short", "eff_prefixed", "bip39"]), rng.choice([2, 4])],
+                                        ["genword", rng.choice(["ascii_62", "ascii_72", "hex"]), rng.choice([4, 12])],
+                                        ["wordset_len", rng.choice(["eff_long", "eff_short", "bip39"])]])
+                            for _ in range(rng.randint(1, 2))])
+    elif t == "T10":
+        # libpass context: cached properties and hashers shared by threads
+        params = {"schemes": rng.sample(["sha256", "sha512", "pbkdf2_sha256", "pbkdf2_sha512", "bcrypt"], rng.randint(1, 3))}
+        for _ in range(nthreads):
+            threads.append([rng.choice([["lp_roundtrip", f"pw{rng.randint(0, 9)}"], ["lp_verify_known"], ["lp_needs_update_known"], ["lp_verify_wrong"]])
                             for _ in range(rng.randint(1, 3))])
     else:  # T8
         schemes = rng.sample(["md5_crypt", "sha256_crypt", "des_crypt", "sha512_crypt", "bsdi_crypt", "sha1_crypt", "bcrypt"], rng.randint(1, 3))
@@ -311,6 +324,20 @@ def build_env(cfg):
                 env["ctx"].verify(PW, KNOWN[p["schemes"][0]])
         elif t == "T7":
             import passlib.crypto.digest  # noqa: F401
+        elif t == "T9":
+            import passlib.pwd  # noqa: F401
+        elif t == "T10":
+            from libpass.context import CryptContext as LPContext
+            from libpass.hashers.bcrypt import BcryptHasher
+            from libpass.hashers.pbkdf2 import PBKDF2SHA256Handler, PBKDF2SHA512Handler
+            from libpass.hashers.sha_crypt import SHA256Hasher, SHA512Hasher
+
+            mk = {"sha256": lambda: SHA256Hasher(rounds=1000), "sha512": lambda: SHA512Hasher(rounds=1000),
+                  "pbkdf2_sha256": lambda: PBKDF2SHA256Handler(rounds=1), "pbkdf2_sha512": lambda: PBKDF2SHA512Handler(rounds=1),
+                  "bcrypt": lambda: BcryptHasher(rounds=4)}
+            env["lp"] = LPContext([mk[n]() for n in p["schemes"]])
+            env["lp_known"] = {"sha256": KNOWN["sha256_crypt"], "sha512": KNOWN["sha512_crypt"], "pbkdf2_sha256": KNOWN["pbkdf2_sha256"],
+                               "pbkdf2_sha512": KNOWN["pbkdf2_sha512"], "bcrypt": KNOWN["bcrypt"]}[p["schemes"][-1]]
     return env
 
 
@@ -447,6 +474,32 @@ def _call(env, k, spec):
         from passlib.crypto.digest import compile_hmac
 
         return compile_hmac(spec[1], b"key")(b"msg").hex()
+    if k == "genphrase":
+        from passlib import pwd
+
+        ph = pwd.genphrase(wordset=spec[1], length=spec[2])
+        words = set(pwd.default_wordsets[spec[1]])
+        parts = ph.split(" ")
+        return [len(parts), all(w in words for w in parts)]
+    if k == "genword":
+        from passlib import pwd
+
+        w = pwd.genword(charset=spec[1], length=spec[2])
+        return [len(w), all(ch in pwd.default_charsets[spec[1]] for ch in w)]
+    if k == "wordset_len":
+        from passlib import pwd
+
+        return len(pwd.default_wordsets[spec[1]])
+    if k == "lp_roundtrip":
+        lp = env["lp"]
+        h = lp.hash(spec[1])
+        return [lp.verify(spec[1], h), lp.verify(spec[1] + "x", h), lp.needs_update(h)]
+    if k == "lp_verify_known":
+        return env["lp"].verify(PW, env["lp_known"])
+    if k == "lp_verify_wrong":
+        return env["lp"].verify("not-the-password", env["lp_known"])
+    if k == "lp_needs_update_known":
+        return env["lp"].needs_update(env["lp_known"])
     if k == "t8_roundtrip":
         Hc = env["hashers"][spec[1]]
         h = Hc.hash(spec[2])
@@ -607,7 +660,8 @@ def _target_kind(cfg):
     """what kind of first-use object the run is about (root-cause granularity for signatures)"""
     t = cfg["target"]
     return {"T1": "LazyCryptContext", "T2": "LazyCryptContext", "T3": "multi-backend-hasher", "T4": "LazyBase64Engine",
-            "T5": "registry", "T6": "CryptContext-caches", "T7": "digest-cache", "T8": "post-init"}[t]
+            "T5": "registry", "T6": "CryptContext-caches", "T7": "digest-cache", "T8": "post-init", "T9": "pwd-wordsets",
+            "T10": "libpass-context"}[t]
 
 
 def _target_label(cfg):
@@ -627,6 +681,10 @@ def _target_label(cfg):
         return "CryptContext-caches"
     if t == "T7":
         return "digest-cache"
+    if t == "T9":
+        return "pwd"
+    if t == "T10":
+        return "libpass:" + ",".join(p["schemes"])
     return "post-init"
 
 
